@@ -208,6 +208,9 @@ def run_states(module, cfg, work, workers=NCPU, timeout=3600):
                 states.append(tlaval.parse_state(blk))
         os.unlink(path)
     shutil.rmtree(meta, ignore_errors=True)
+    # TLC's workers write the states in a varying order: a canonical order makes every sample drawn from them a
+    # function of VERIF_SEED alone
+    states.sort(key=lambda st: json.dumps(st, sort_keys=True, default=repr))
     res = parse_counts(out)
     res.update(ok=ok, out=out)
     return states, res
